@@ -773,6 +773,76 @@ def rule_opening_triples(ctx, cfg='prod-all'):
     yield Ob('RF-J', 'cl03::range_proof#opening-triples', n >= 4, 'sub-prover calls with a locally computed commitment examined', '', fact=n, expected='>= 4', nontrivial=False)
 
 
+def _base_descriptor(b, fd, op):
+    """how a base argument is selected: (list it is taken from, 'position 0' / 'position of the loop' / ..), or the plain name"""
+    l = op['pl']['l'] if op.get('k') in ('copy', 'move') else None
+    for _ in range(8):
+        if l is None:
+            break
+        ds = fd.defs.get(l, [])
+        if len(ds) != 1:
+            break
+        k, _b, x = ds[0]
+        if k == 'assign' and x['rv'].get('k') in ('use', 'cast') and x['rv']['op'].get('k') in ('copy', 'move'):
+            l = x['rv']['op']['pl']['l']
+            continue
+        if k == 'assign' and x['rv'].get('k') == 'ref':
+            l = x['rv']['pl']['l']
+            continue
+        if k == 'call' and (x.get('callee') or '').endswith(('Index::index', '::get', '::get_unchecked')) and len(x['args']) == 2:
+            cont = _operand_name(b, fd, x['args'][0])
+            idx = x['args'][1]
+            return (cont, 'position %s' % idx.get('int') if idx.get('k') == 'const' else 'a variable position')
+        if k == 'call' and (x.get('callee') or '').endswith(('::unwrap', '::expect', 'Deref::deref', 'Clone::clone')) and x['args'] and x['args'][0].get('k') in ('copy', 'move'):
+            l = x['args'][0]['pl']['l']
+            continue
+        break
+    nm = _operand_name(b, fd, op)
+    if len(fd.defs.get(l, [])) > 1:
+        return (nm, 'a variable assigned in several places')
+    return (nm, '')
+
+
+SUBPROTOCOL_CALLS = [(('nisp2sec_generate_proof', ('g1', 'h1')), ('nisp2sec_verify_proof', ('g1', 'h1'))),
+                     (('Boudot2000RangeProof::prove', ('base1', 'base2')), ('Boudot2000RangeProof::verify', ('base1', 'base2')))]
+
+
+def rule_subprotocol_bases_agree(ctx, cfg='prod-all'):
+    """`generate_proof` / `verify_proof` and `proof_gen` / `proof_verify` run the same sub-protocols in the same order; the k-th call of a
+    sub-prover and the k-th call of its sub-verifier are handed bases selected the same way (the base of position 0, the base of the position the
+    loop is at, the `h` of the commitment key ..).  A verifier that takes the base the loop variable was left at where the prover takes `a_0`
+    is consistent with itself and refuses honest proofs for some hidden sets only."""
+    prog, eng = ctx.prog(cfg), ctx.eng(cfg)
+    n = 0
+    for pf, vf in ((ZKI + 'generate_proof', ZKI + 'verify_proof'), (POKI + 'proof_gen', POKI + 'proof_verify')):
+        pb, vb = resolve_fn(prog, pf), resolve_fn(prog, vf)
+        for (pc, pparams), (vc, vparams) in SUBPROTOCOL_CALLS:
+            seqs = []
+            for b, suffix, params in ((pb, pc, pparams), (vb, vc, vparams)):
+                fd = eng.fndep(b.path)
+                seq = []
+                for bi, t in sorted(b.calls(), key=lambda z: (z[1].get('line') or 0, z[0])):
+                    tg = local_target(eng, t) or ''
+                    if not tg.endswith(suffix):
+                        continue
+                    cb = prog.bodies[tg]
+                    ks = [cb.param_index(x) for x in params]
+                    if None in ks or max(ks) > len(t['args']):
+                        continue
+                    seq.append(tuple(_base_descriptor(b, fd, t['args'][k - 1]) for k in ks))
+                seqs.append(seq)
+            if not seqs[0] and not seqs[1]:
+                continue
+            n += 1
+            same = len(seqs[0]) == len(seqs[1]) and all(tuple(d[1] for d in a) == tuple(d[1] for d in c) and
+                                                         tuple(d[0].split('.')[-1] for d in a) == tuple(d[0].split('.')[-1] for d in c) for a, c in zip(seqs[0], seqs[1]))
+            ok = same if len(seqs[0]) == len(seqs[1]) else None       # (a side restructured into helpers / loops: not judged)
+            yield Ob('RF-B', '%s#sub-bases:%s' % (pb.path, pc.split('::')[-1]), ok, 'the k-th sub-prover call and the k-th sub-verifier call get bases selected the same way',
+                     pb.span, fact={'prover': [[' / '.join(x for x in d if x) for d in a] for a in seqs[0]][:6], 'verifier': [[' / '.join(x for x in d if x) for d in a] for a in seqs[1]][:6]},
+                     expected='the same selection call by call')
+    yield Ob('RF-B', 'cl03#sub-protocol-call-pairs', n >= 2, 'sub-protocol call sequences compared', '', fact=n, expected='>= 2', nontrivial=False)
+
+
 PAYLOAD_ADAPTERS = ('::map', '::and_then', '::map_or', '::map_or_else', '::inspect', '::into_iter', '::iter', '::unwrap_or', '::unwrap_or_default', '::unwrap_or_else')
 
 
